@@ -44,6 +44,11 @@ TEXT = {
   technique='fault enumeration over generated (old,new) GPT pairs: the WriteAt/Sync log of Table.Write is replayed into every crash state (epoch prefix x sector-subset family, exhaustive 2^n for n<=12) and partition.Read must return exactly old or exactly new',
   level_text='For each generated pair every crash state of the stated family is enumerated and checked; pairs themselves are sampled by rapid. Fault enumeration: complete inside the family per pair, not over all pairs.',
   level_note='Crash model = per-logical-sector persistence inside one sync epoch, strict ordering across Sync(); the device records Sync() via the same type assertion the library uses for *os.File.'),
+ 'C11': dict(
+  design_ref='DESIGN.md §4 C11',
+  technique='property-based testing: generated interleavings of every mutating and reading entry point on images opened through each read-only route (backend whose Writable() fails, file.New(readOnly), diskfs.Open(ReadOnly), OpenFromPath(readOnly)) and on a writable device used for reads only; oracle = device write log / file hash unchanged after every step, error required from calls that must change the image',
+  level_text='Generated call sequences with a write-log invariant and an error-rule oracle. Exploration.',
+  level_note='Trusts the instrumented device (write log) and, for the real-file routes, SHA-256 of the file.'),
  'C12': dict(
   design_ref='DESIGN.md §4 C12',
   technique='property-based testing: generated (type, size incl. FAT cluster thresholds, whole disk / GPT / MBR partition, stale previous filesystem or garbage, label) cases created through Disk.CreateFilesystem and re-opened from the device bytes; oracle = table type, filesystem type, label and probe-file contents, blank ranges unrecognised',
